@@ -961,18 +961,36 @@ func cmdSelftestDeterminism(prop string, nseeds int) int {
 		fmt.Fprintf(os.Stderr, "build failed: %v\n", err)
 		return 2
 	}
-	// the same job (same seeds) in several processes at different GOMAXPROCS
-	var logs [][]string
+	ids := []string{prop}
+	if prop == "all" {
+		ids = nil
+		for id := range props {
+			ids = append(ids, id)
+		}
+		sort.Strings(ids)
+	}
+	rc := 0
+	for _, id := range ids {
+		if determinismOne(bo, id, nseeds) != 0 {
+			rc = 1
+		}
+	}
+	return rc
+}
+
+// determinismOne runs the same job (same seeds) in several fresh processes at
+// different GOMAXPROCS and compares the per-run logs.
+func determinismOne(bo *buildOut, prop string, nseeds int) int {
 	procs := []string{"1", "4", "16", "2", "8", "1"}
 	var wg sync.WaitGroup
-	logs = make([][]string, len(procs))
+	logs := make([][]string, len(procs))
 	for i, gp := range procs {
 		wg.Add(1)
 		go func(i int, gp string) {
 			defer wg.Done()
-			dir := filepath.Join(bo.Scratch, fmt.Sprintf("det%d", i))
+			dir := filepath.Join(bo.Scratch, fmt.Sprintf("det-%s-%d", prop, i))
 			os.MkdirAll(dir, 0755)
-			job := &Job{Prop: prop, Tier: "quick", Seed: 7, Worker: 0, NWorkers: 1, BudgetSec: 600, MaxRuns: nseeds, TraceAll: true}
+			job := &Job{Prop: prop, Tier: "quick", Seed: 7, Worker: 0, NWorkers: 1, BudgetSec: 600, MaxRuns: nseeds, TraceAll: true, Known: loadKnown()}
 			wr := runWorker(bo.Bin, job, dir, 6000, 600*time.Second, "GOMAXPROCS="+gp)
 			var r Result
 			if wr.Raw != nil {
@@ -980,19 +998,18 @@ func cmdSelftestDeterminism(prop string, nseeds int) int {
 			}
 			logs[i] = r.TraceLog
 		}(i, gp)
-		time.Sleep(50 * time.Millisecond)
 	}
 	wg.Wait()
 	bad := 0
 	for i := 1; i < len(logs); i++ {
 		if len(logs[i]) != len(logs[0]) {
-			fmt.Printf("process %d logged %d runs, process 0 %d\n", i, len(logs[i]), len(logs[0]))
+			fmt.Printf("%s: process %d logged %d runs, process 0 %d\n", prop, i, len(logs[i]), len(logs[0]))
 			bad++
 			continue
 		}
 		for j := range logs[0] {
 			if logs[i][j] != logs[0][j] {
-				fmt.Printf("DIVERGENCE run %d: proc0 %q vs proc%d %q\n", j, logs[0][j], i, logs[i][j])
+				fmt.Printf("%s: DIVERGENCE run %d: proc0 %q vs proc%d %q\n", prop, j, logs[0][j], i, logs[i][j])
 				bad++
 			}
 		}
